@@ -45,17 +45,14 @@ def _quoting_ok(elt, var):
     return False, 'the word is embedded as %s' % t[:80]
 
 
-def run(ctx):
+def check_split(ctx, rule):
+    """Shapes and first-marker-wins discipline of _split_command (also used by C13: the program's own words are verbatim)."""
     repo = ctx.repo
-    ex = exceptions(repo)
-    ctx.decided = ['C19.1 split shapes', 'C19.2 argparse sees only our half', 'C19.3 forwarded words reach the program / GDB unmodified', 'C19.4 matcher errors are reported',
-                   'C19.5 exactly one mode', 'C19.6 our words survive the re-quoting into the GDB python command']
-    ctx.undecided = ["GDB's own command-line parsing"]
     f_split = repo.func('arguments._split_command')
-    f_pa = repo.func('arguments.parse_args')
     # ---- C19.1 -------------------------------------------------------------------------------------------
     sp = paths_of(repo, f_split, unroll=1)
-    I = r'<elem0 of range\(len\(args\)\)>'
+    I = r'(?:<elem0 of range\(len\(args\)\)>|<elem0 of enumerate\(args\)>\[0\])'
+    W = r'(?:args\[%s\]|<elem0 of enumerate\(args\)>\[1\])' % I
     shapes = set()
     for p in sp:
         if p.outcome[0] != 'return':
@@ -63,7 +60,7 @@ def run(ctx):
         t = norm(p.outcome[1])
         if t == "(args, '', [])":
             shapes.add('none')
-            ctx.ok('C19.1', f_split.loc(), t, 'no marker: everything is ours')
+            ctx.ok(rule, f_split.loc(), t, 'no marker: everything is ours')
             continue
         m = re.match(r"^\((.+), (_strip_dashes\(<elem0 of commands>\[0\]\)), (.+)\)$", t)
         good = False
@@ -72,20 +69,31 @@ def run(ctx):
             if re.match(r'^args\[:%s\]$' % I, pre) and re.match(r'^args\[%s \+ 1:\]$' % I, post):
                 good = True
                 shapes.add('exact')
-            elif re.match(r'^args\[:%s\] \+ \[args\[%s\]\[:-1\]\]$' % (I, I), pre) and re.match(r'^args\[%s \+ 1:\]$' % I, post):
+            elif re.match(r'^args\[:%s\] \+ \[%s\[:-1\]\]$' % (I, W), pre) and re.match(r'^args\[%s \+ 1:\]$' % I, post):
                 good = True
                 shapes.add('cluster')
-        ctx.check(good, 'C19.1', 'split:shape:%s' % t[:60], f_split.loc(), 'split is (words before position i [+ the cluster minus its last letter], marker id, words after i)',
+        ctx.check(good, rule, 'split:shape:%s' % t[:60], f_split.loc(), 'split is (words before position i [+ the cluster minus its last letter], marker id, words after i)',
                   '_split_command returns %s' % t[:200])
-    ctx.check(shapes >= {'none', 'exact', 'cluster'}, 'C19.1', 'split:all-shapes', f_split.loc(), 'the three split shapes (no marker, exact marker, marker at the end of a flag cluster) exist',
+    ctx.check(shapes >= {'none', 'exact', 'cluster'}, rule, 'split:all-shapes', f_split.loc(), 'the three split shapes (no marker, exact marker, marker at the end of a flag cluster) exist',
               'split shapes present: %s' % sorted(shapes))
     tops = [n for n in f_split.node.body if isinstance(n, ast.For)]
-    ctx.check(len(tops) == 1 and norm(tops[0].iter) == 'range(len(args))' and any(isinstance(x, ast.For) for x in ast.walk(tops[0]) if x is not tops[0]), 'C19.1', 'split:position-loop-outermost', f_split.loc(),
+    ctx.check(len(tops) == 1 and norm(tops[0].iter) in ('range(len(args))', 'enumerate(args)') and any(isinstance(x, ast.For) for x in ast.walk(tops[0]) if x is not tops[0]), rule, 'split:position-loop-outermost', f_split.loc(),
               'the loop over positions is the outermost one, so the first marker position wins', 'outermost loop is %s' % [norm(t_.iter) for t_ in tops])
     # a return inside the loops happens at the first hit: every Return inside the loop nest is unconditional once its test matched
     # exact-match test compares the whole word with the alias
-    exact = [a.text for p in sp for a, v in p.decisions if re.match(r'^.+ == args\[%s\]$|^args\[%s\] == .+$' % (I, I), a.text)]
-    ctx.check(bool(exact), 'C19.1', 'split:exact-word-test', f_split.loc(), 'a marker on its own is recognised by comparing the whole word')
+    exact = [a.text for p in sp for a, v in p.decisions if re.match(r'^.+ == %s$|^%s == .+$' % (W, W), a.text)]
+    ctx.check(bool(exact), rule, 'split:exact-word-test', f_split.loc(), 'a marker on its own is recognised by comparing the whole word')
+
+
+def run(ctx):
+    repo = ctx.repo
+    ex = exceptions(repo)
+    ctx.decided = ['C19.1 split shapes', 'C19.2 argparse sees only our half', 'C19.3 forwarded words reach the program / GDB unmodified', 'C19.4 matcher errors are reported',
+                   'C19.5 exactly one mode', 'C19.6 our words survive the re-quoting into the GDB python command']
+    ctx.undecided = ["GDB's own command-line parsing"]
+    f_split = repo.func('arguments._split_command')
+    f_pa = repo.func('arguments.parse_args')
+    check_split(ctx, 'C19.1')
     # ---- C19.2 / C19.3 -----------------------------------------------------------------------------------------
     calls = [n for n in f_pa.body_nodes() if isinstance(n, ast.Call) and norm(n.func) == '_split_command']
     ctx.floor('C19.2', len(calls), 1, '_split_command call in parse_args')
